@@ -221,17 +221,18 @@ def ed_view(ip, e):
 
 
 def ed_ae_from(ip, y, plus):
-    """try-and-increment (C14): 8*P for the first y' = (y+plus') mod Q, plus' >= plus, such that
-    (xrecover(y'), y') is on the curve and 8*P is not the identity; unfolded once"""
-    yt, pt = I(y), I(plus)
-    t = f_aed(yt, pt)
-    if sym.FACTS.reg("aed", yt, pt):
-        yp = (yt + pt) % Q
-        x = f_xrec(yp)
-        on = Bo(ed_oncurve(ip, mkint(x), mkint(yp)))
-        P8 = f_mul(IV(8), f_aff(x, yp))
+    """try-and-increment (C14): `first(c)` for the candidate c = (y+plus) mod Q, where first(c) = 8*P for P = (xrecover(c), c) if
+    that pair is on the curve and 8*P is not the identity, else first((c+1) mod Q).  A recursive definition over ONE argument (the
+    candidate), unfolded once per term: the same spec function serves every way of stepping through the candidates."""
+    c = z3.simplify((I(y) + I(plus)) % Q)
+    t = f_aed(c, IV(0))
+    if sym.FACTS.reg("aed", c):
+        x = f_xrec(c)
+        on = Bo(ed_oncurve(ip, mkint(x), mkint(c)))
+        P8 = f_mul(IV(8), f_aff(x, c))
         good = z3.And(on, P8 != c_O)
-        sym.FACTS.add(t == z3.If(good, P8, f_aed(yt, pt + 1)), "ed-ae-unfold")
+        nxt = z3.simplify((c + 1) % Q)
+        sym.FACTS.add(t == z3.If(good, P8, f_aed(nxt, IV(0))), "ed-ae-unfold")
     return SPoint(t)
 
 
